@@ -15,7 +15,10 @@
       hash iteration order);
     * a power with a non-integral exponent goes through Python floats: `Err.inexact` (or a hazard, see `scPow`);
     * type expressions (`uint8`, `ns.T.1.0`) as atoms are not part of `Expr`;
-    * string equality is NFC-normalised in the library; the model compares code points (generators use NFC-stable text).
+    * string equality is NFC-normalised in the library (`String._equal`), string *identity* inside sets is not
+      (`String.__eq__`/`__hash__` on the raw text): the evaluator is parametric in the normalisation function
+      (`class StrNorm`), and `Ucd.nfc` below is the algorithm of UAX #15 (canonical decomposition, canonical ordering,
+      canonical composition, Hangul arithmetically) over character data handed in per case.
 -/
 namespace Ex
 
@@ -76,6 +79,114 @@ inductive Err where
 abbrev R := Except Err
 
 def inval {α} (k : InvKind) : R α := .error (.invalid k)
+
+/-! ## Unicode normalisation form C
+
+  `String._equal` compares `unicodedata.normalize("NFC", ·)` of both operands; everything else (`+`, set membership,
+  `@print`) works on the raw code points.  The evaluator takes the normalisation as a parameter (`StrNorm`), so every
+  theorem about it holds for every normalisation function.  The driver instantiates it with `Ucd.nfc`: the
+  normalisation algorithm of UAX #15 / Unicode chapter 3.11 over an extract of the Unicode Character Database for the code
+  points of the case (canonical combining classes, full canonical decompositions, primary composites).  Hangul
+  syllables are decomposed and composed arithmetically (chapter 3.12) and need no data. -/
+
+/-- the normalisation function behind string `==` / `!=` -/
+class StrNorm where
+  nfc : List Nat → List Nat
+
+/-- no normalisation: adequate for texts that are their own normal form (ASCII, for one); used by closed examples -/
+@[reducible] def StrNorm.plain : StrNorm := ⟨id⟩
+
+/-- extract of the Unicode Character Database; a code point without an entry has class 0, no decomposition and takes
+    part in no pair -/
+structure Ucd where
+  ccc : List (Nat × Nat)            -- Canonical_Combining_Class where it is not 0
+  dec : List (Nat × List Nat)       -- full canonical decomposition (NFD of the single character), Hangul syllables left out
+  comp : List ((Nat × Nat) × Nat)   -- primary composites (first, second) ↦ composite; composition exclusions left out
+  deriving Repr, Inhabited
+
+def Ucd.empty : Ucd := ⟨[], [], []⟩
+
+def Ucd.cccOf (u : Ucd) (c : Nat) : Nat := (u.ccc.lookup c).getD 0
+
+def hSBase : Nat := 0xAC00
+def hLBase : Nat := 0x1100
+def hVBase : Nat := 0x1161
+def hTBase : Nat := 0x11A7
+def hLCount : Nat := 19
+def hVCount : Nat := 21
+def hTCount : Nat := 28
+def hNCount : Nat := 588      -- VCount * TCount
+def hSCount : Nat := 11172    -- LCount * NCount
+
+/-- arithmetic decomposition of a Hangul syllable into L V (T) -/
+def hangulDecomp (s : Nat) : Option (List Nat) :=
+  if hSBase ≤ s ∧ s < hSBase + hSCount then
+    let i := s - hSBase
+    let l := hLBase + i / hNCount
+    let v := hVBase + (i % hNCount) / hTCount
+    let t := i % hTCount
+    some (if t = 0 then [l, v] else [l, v, hTBase + t])
+  else none
+
+/-- arithmetic composition: L + V, LV + T -/
+def hangulComp (a b : Nat) : Option Nat :=
+  if hLBase ≤ a ∧ a < hLBase + hLCount ∧ hVBase ≤ b ∧ b < hVBase + hVCount then
+    some (hSBase + ((a - hLBase) * hVCount + (b - hVBase)) * hTCount)
+  else if hSBase ≤ a ∧ a < hSBase + hSCount ∧ (a - hSBase) % hTCount = 0 ∧ hTBase < b ∧ b < hTBase + hTCount then
+    some (a + (b - hTBase))
+  else none
+
+def Ucd.decompOf (u : Ucd) (c : Nat) : List Nat :=
+  match hangulDecomp c with
+  | some d => d
+  | none => (u.dec.lookup c).getD [c]
+
+def Ucd.pair (u : Ucd) (a b : Nat) : Option Nat :=
+  match hangulComp a b with
+  | some c => some c
+  | none => u.comp.lookup (a, b)
+
+/-- canonical ordering, one character of class `k > 0` into the reversed output: in front of every directly preceding
+    character of a greater class (a starter, class 0, is a barrier; equal classes keep their order) -/
+def Ucd.insertMark (u : Ucd) (c k : Nat) : List Nat → List Nat
+  | [] => [c]
+  | d :: r => if k < u.cccOf d then d :: u.insertMark c k r else c :: d :: r
+
+def Ucd.orderStep (u : Ucd) (outRev : List Nat) (c : Nat) : List Nat :=
+  let k := u.cccOf c
+  if k = 0 then c :: outRev else u.insertMark c k outRev
+
+/-- normalisation form D: full canonical decomposition, then canonical ordering -/
+def Ucd.nfd (u : Ucd) (cs : List Nat) : List Nat :=
+  ((cs.flatMap u.decompOf).foldl u.orderStep []).reverse
+
+/-- state of the canonical composition pass -/
+structure CompSt where
+  done : List Nat          -- reversed: everything in front of the current starter
+  starter : Option Nat     -- the last starter (possibly already a composite)
+  tail : List Nat          -- reversed: the characters kept behind the current starter
+  last : Nat               -- class of the last kept character, 0 directly behind the starter
+
+def CompSt.out (s : CompSt) : List Nat :=
+  (s.tail ++ (match s.starter with | some x => [x] | none => []) ++ s.done).reverse
+
+/-- one character of a canonically ordered text: it combines with the last starter when the pair has a primary
+    composite and the character is not blocked (no kept character of class 0 or of a class ≥ its own in between) -/
+def Ucd.compStep (u : Ucd) (s : CompSt) (c : Nat) : CompSt :=
+  let k := u.cccOf c
+  let keep : CompSt :=
+    if k = 0 then ⟨s.tail ++ (match s.starter with | some x => [x] | none => []) ++ s.done, some c, [], 0⟩
+    else { s with tail := c :: s.tail, last := k }
+  match s.starter with
+  | none => keep
+  | some st =>
+    match u.pair st c with
+    | some p => if s.last < k ∨ s.last = 0 then { s with starter := some p } else keep
+    | none => keep
+
+/-- normalisation form C: NFD, then canonical composition -/
+def Ucd.nfc (u : Ucd) (cs : List Nat) : List Nat :=
+  ((u.nfd cs).foldl u.compStep ⟨[], none, [], 0⟩).out
 
 /-! ## Operators -/
 
@@ -146,8 +257,9 @@ def bitwise (f : Int → Int → Int) (a b : Rat) : R Scalar :=
   if Rat.isInt' a && Rat.isInt' b then .ok (.rat (f a.num b.num : Int)) else inval .nonInteger
 
 /-- `_operator.<op>(left, right)` on two primitives.  The swap rule never helps here: the mirrored method of a
-    primitive rejects a primitive of another class as well, and for equal classes the error is re-raised. -/
-def scBin : BinOp → Scalar → Scalar → R Scalar
+    primitive rejects a primitive of another class as well, and for equal classes the error is re-raised.
+    `String._add` concatenates the raw texts (nothing is normalised), `String._equal` compares the NFC forms. -/
+def scBin [StrNorm] : BinOp → Scalar → Scalar → R Scalar
   | .add, .rat a, .rat b => .ok (.rat (a + b))
   | .sub, .rat a, .rat b => .ok (.rat (a - b))
   | .mul, .rat a, .rat b => .ok (.rat (a * b))
@@ -168,8 +280,8 @@ def scBin : BinOp → Scalar → Scalar → R Scalar
   | .eq, .bool a, .bool b => .ok (.bool (a == b))
   | .ne, .bool a, .bool b => .ok (.bool (a != b))
   | .add, .str a, .str b => .ok (.str (a ++ b))
-  | .eq, .str a, .str b => .ok (.bool (a == b))
-  | .ne, .str a, .str b => .ok (.bool (a != b))
+  | .eq, .str a, .str b => .ok (.bool (StrNorm.nfc a == StrNorm.nfc b))
+  | .ne, .str a, .str b => .ok (.bool (StrNorm.nfc a != StrNorm.nfc b))
   | _, _, _ => inval .undefinedOp
 
 /-! ### Sets -/
@@ -231,7 +343,7 @@ def mapR {α β} (f : α → R β) : List α → R (List β)
 
 /-- The binary operators as dispatched by `_operator.py` (direct method, then the mirrored method of the right
     operand when the classes differ). -/
-def evalBin (op : BinOp) : Val → Val → R Val
+def evalBin [StrNorm] (op : BinOp) : Val → Val → R Val
   | .sc a, .sc b => (scBin op a b).map .sc
   | .set a, .sc b =>
       if op.isArith then (mapR (fun x => scBin op x b) a).bind mkSetS else inval .undefinedOp
@@ -246,7 +358,7 @@ def evalUn : UnOp → Val → R Val
   | _, _ => inval .undefinedOp
 
 /-- `functools.reduce(lambda a, b: a if less(a, b) else b, elements)`; `flip = true` for `greater`. -/
-def reduceCmp (flip : Bool) : Scalar → List Scalar → R Scalar
+def reduceCmp [StrNorm] (flip : Bool) : Scalar → List Scalar → R Scalar
   | a, [] => .ok a
   | a, b :: rest =>
     match scBin (if flip then .gt else .lt) a b with
@@ -255,7 +367,7 @@ def reduceCmp (flip : Bool) : Scalar → List Scalar → R Scalar
     | .error e => .error e
 
 /-- `Set._attribute` / `Any._attribute` -/
-def evalAttr : Val → String → R Val
+def evalAttr [StrNorm] : Val → String → R Val
   | .set (x :: xs), "min" => (reduceCmp false x xs).map .sc
   | .set (x :: xs), "max" => (reduceCmp true x xs).map .sc
   | .set es, "count" => .ok (.rat (es.length : Nat))
@@ -395,7 +507,7 @@ abbrev Env := List (String × Val)
 
 mutual
 /-- Post-order, left to right, first error wins: the order in which parsimonious visits the parse tree. -/
-def eval (env : Env) : Expr → R Val
+def eval [StrNorm] (env : Env) : Expr → R Val
   | .lit l => evalLit l
   | .ident n => match env.lookup n with
       | some v => .ok v
@@ -414,7 +526,7 @@ def eval (env : Env) : Expr → R Val
   | .attr e n => match eval env e with
       | .error x => .error x
       | .ok v => evalAttr v n
-def evalList (env : Env) : List Expr → R (List Val)
+def evalList [StrNorm] (env : Env) : List Expr → R (List Val)
   | [] => .ok []
   | e :: es => match eval env e with
       | .error x => .error x
